@@ -171,6 +171,16 @@ func (e *Engine) f2i(x *Term, w int) *Term {
 		r := tt.FToSBV(tt.FToFP(x, F64Sort), 64)
 		return tt.Extract(r, w-1, 0)
 	}
+	// float64(i) for an i of at most 32 bits converts back exactly
+	if x.Op == OSBVToFP && x.Sort.K == SF64 {
+		a := x.Args[0]
+		if a.Sort.W <= 32 {
+			return tt.Extract(tt.SExt(a, 64), w-1, 0)
+		}
+		if a.Op == OSExt && a.Args[0].Sort.W <= 32 {
+			return tt.Extract(a, w-1, 0)
+		}
+	}
 	x64 := tt.FToFP(x, F64Sort)
 	lo := tt.F64Const(-9.223372036854775808e18)
 	hi := tt.F64Const(9.223372036854775808e18)
